@@ -106,6 +106,13 @@ func validateFragmentSpreads(doc *ast.Document, s *schema.Schema, features schem
 			ret = append(ret, newSecondaryError(tc, "no type info for fragment spread parent"))
 			return
 		}
+		switch parentType.(type) {
+		case *schema.ObjectType, *schema.InterfaceType, *schema.UnionType:
+		default:
+			// a selection set on a field of a leaf type, which is reported by the field rules
+			ret = append(ret, newSecondaryError(tc, "fragment spread parent is not a composite type"))
+			return
+		}
 		switch fragmentType := namedType(s, features, tc.Name.Name).(type) {
 		case *schema.ObjectType, *schema.InterfaceType, *schema.UnionType:
 			a := getPossibleTypes(s, features, fragmentType)
